@@ -11,6 +11,9 @@ ops (booleans 0/1):
   lock | timer | restart                -> ok
   read                                  -> locked | unlocked
   guarded                               -> secret | ErrWalletIsLocked
+  sign none|wallet|foreign none|valid|garbage
+                                        -> signed:stored | signed:supplied | ErrWalletIsLocked | ErrAddrNotExist |
+                                           ErrNoPrivKeyOrAddr | ErrPrivkey      (SignRawTx with both key-selecting fields)
   spbegin <oldOk> <newValid> <writeOk>  -> mid | ret:ErrInvalidPassWord
   spstep                                -> mid | ret:<result>
   spto p1|p4|ret                        -> at:<p1|p4> <flag> | ret:<result> <flag>
@@ -41,11 +44,19 @@ def showOut : Out → String
   | .err e => e
   | .flag b => showFlag b
   | .secret => "secret"
+  | .supplied => "signed:supplied"
   | .mid => "mid"
   | .ret r => "ret:" ++ showRes r
 
+def addrKind? (s : String) : Option AddrKind :=
+  if s == "none" then some .none else if s == "wallet" then some .wallet else if s == "foreign" then some .foreign else none
+
+def privKind? (s : String) : Option PrivKind :=
+  if s == "none" then some .none else if s == "valid" then some .valid else if s == "garbage" then some .garbage else none
+
 def label? (ws : List String) : Option Label :=
   match ws with
+  | ["sign", a, p] => do pure (.sign (← addrKind? a) (← privKind? p))
   | ["unlock", a, b, c] => do pure (.unlock (← bool? a) (← bool? b) (← bool? c))
   | ["lock"] => some .lock
   | ["timer"] => some .timer
@@ -100,7 +111,11 @@ def stepLine (d : DState) (line : String) : DState × String :=
     | some l =>
       match step d.v d.s l with
       | none => (d, "not-enabled")
-      | some (s', o) => ({ d with s := s' }, showOut o)
+      | some (s', o) =>
+        let txt := match l, o with
+          | .sign _ _, .secret => "signed:stored"
+          | _, _ => showOut o
+        ({ d with s := s' }, txt)
 
 def main : IO Unit := do
   loopState (← IO.getStdin) (← IO.getStdout) stepLine {}
